@@ -493,7 +493,7 @@ impl Reduce {
         input: Arc<Relation>,
     ) -> Self {
         // assert!(Split::from_iter(named_exprs.clone()).len()==1);
-        let (schema, aggregate) = Reduce::schema_aggregate(named_aggregate, &input);
+        let (schema, aggregate) = Reduce::schema_aggregate(named_aggregate, &group_by, &input);
         let size = Reduce::size(&input);
         Reduce {
             name,
@@ -508,17 +508,20 @@ impl Reduce {
     /// Compute the schema and exprs of the reduce
     fn schema_aggregate(
         named_aggregate_columns: Vec<(String, AggregateColumn)>,
+        group_by: &[Column],
         input: &Relation,
     ) -> (Schema, Vec<AggregateColumn>) {
         // The input schema HAS to be a Struct
         let input_data_type: Struct = input.data_type().try_into().unwrap();
         let input_columns_data_type: DataType =
             Struct::from_schema_size(input_data_type, input.size()).into();
-        let has_one_group = named_aggregate_columns
-            .iter()
-            .filter(|(_, agg)| matches!(agg.aggregate(), &Aggregate::First))
-            .count()
-            == 1;
+        // A grouping column takes each value once only when it is the single GROUP BY column
+        // (counting the FIRST aggregates is not enough: a GROUP BY column may not be selected)
+        let single_group_by = if group_by.len() == 1 {
+            Some(&group_by[0])
+        } else {
+            None
+        };
         let (fields, aggregates) = named_aggregate_columns
             .into_iter()
             .map(|(name, aggregate_column)| {
@@ -529,7 +532,7 @@ impl Reduce {
                             .super_image(&input_columns_data_type)
                             .unwrap(),
                         if aggregate_column.aggregate() == &Aggregate::First
-                            && (has_one_group
+                            && (single_group_by == Some(aggregate_column.column())
                                 || input
                                     .schema()
                                     .field(aggregate_column.column_name().unwrap())
